@@ -225,9 +225,9 @@ from stages import stage_c13
 PROPS["C13"] = dict(
     groups=["token", "escape", "quote", "coltypes"],
     lean_props=["SeaQ.Props.C13", "SeaQ.Props.Ddl"],
-    lean_obligations=["SeaQ.Lemmas.Scan", "SeaQ.Lemmas.SafeBasics", "SeaQ.Lemmas.Ctx", "SeaQ.Lemmas.RenderCtx", "SeaQ.Lemmas.DdlCtx"],
+    lean_obligations=["SeaQ.Lemmas.Scan", "SeaQ.Lemmas.SafeBasics", "SeaQ.Lemmas.Ctx", "SeaQ.Lemmas.RenderCtx", "SeaQ.Lemmas.DdlCtx", "SeaQ.Lemmas.Balance", "SeaQ.Lemmas.RenderBalance", "SeaQ.Lemmas.DdlBalance"],
     extra=[stage_c13],
-    technique="Lean 4 model of the schema-statement renderer (Model/Ddl: CREATE / ALTER / DROP / RENAME TABLE, CREATE / DROP INDEX, foreign keys; SQLite dialect here) tied to the crate by differential runs of generated schema statements through build / to_string / build_any, with theorems for every statement of the model: the engine's lexer reads the rendered text item by item as written (ddl_read: declared names as single quoted identifiers, strings as single literals), CREATE TABLE is head + the ', '-separated list of all declared columns, keys, foreign keys and checks in order + tail (create_items, create_complete), PRIMARY KEY / AUTOINCREMENT are moved to the end adjacent and in this order and an auto-increment integer column is declared exactly 'integer'; plus the proof over the SQLite type-name table regenerated from src/backend/sqlite/table.rs on every run: for every supported ColumnType variant, every template its arm can write and every value of the length / precision / scale parameters, SQLite's five-rule affinity of the written name is the intended one (digits can neither contain nor complete a letter pattern: hasSub_digits); execution and the catalogue are decided on the engine: generated scenarios of CREATE TABLE / CREATE INDEX / ALTER / RENAME / DROP are executed on SQLite and PRAGMA table_xinfo / index_list / index_xinfo / foreign_key_list, CAST-observed affinity and evaluated defaults are compared with the catalogue expected from the scenario description",
+    technique="Lean 4 model of the schema-statement renderer (Model/Ddl: CREATE / ALTER / DROP / RENAME TABLE, CREATE / DROP INDEX, foreign keys; SQLite dialect here) tied to the crate by differential runs of generated schema statements through build / to_string / build_any, with theorems for every statement of the model: the engine's lexer reads the rendered text item by item as written (ddl_read: declared names as single quoted identifiers, strings as single literals), parentheses are balanced (ddl_balanced), CREATE TABLE is head + the ', '-separated list of all declared columns, keys, foreign keys and checks in order + tail (create_items, create_complete), PRIMARY KEY / AUTOINCREMENT are moved to the end adjacent and in this order and an auto-increment integer column is declared exactly 'integer'; plus the proof over the SQLite type-name table regenerated from src/backend/sqlite/table.rs on every run: for every supported ColumnType variant, every template its arm can write and every value of the length / precision / scale parameters, SQLite's five-rule affinity of the written name is the intended one (digits can neither contain nor complete a letter pattern: hasSub_digits); execution and the catalogue are decided on the engine: generated scenarios of CREATE TABLE / CREATE INDEX / ALTER / RENAME / DROP are executed on SQLite and PRAGMA table_xinfo / index_list / index_xinfo / foreign_key_list, CAST-observed affinity and evaluated defaults are compared with the catalogue expected from the scenario description",
     level_text="Machine-checked for every schema statement of the model (unbounded lists, nested expressions): ddl_safe / ddl_read (lexical well-formedness under the decidable per-piece condition contentOK), create_items / create_complete, sqlite_pk_autoincrement_last, sqlite_autoincrement_integer; and affinity_intended for all parameter values over the regenerated table (translator: seaq-translate group coltypes; an arm it does not understand fails the check). Validated by execution: acceptance of every generated schema statement and equality of the reported catalogue (columns in order, nullability, default, primary key, uniqueness, autoincrement, checks, index columns / direction / uniqueness / partial, foreign-key columns and actions) with the declaration.",
     level_note="Trusted: Lean kernel; seaq-translate (syn) for the type-name table; SQLite's documented affinity rules as written in SeaQ.Affinity.affinity (cross-checked against the engine through CAST on every generated column); the expected-catalogue rules of the harness (rowid alias, automatic indexes, default actions); the SQLite library linked into python3. The schema-statement model (Model/Ddl.lean) is hand-written from src/backend/{table,index,foreign_key}_builder.rs and the three backends' table.rs / index.rs / foreign_key.rs and validated against the crate on every run (3 000 generated statements per quick run, panics included); CREATE TYPE / EXTENSION and the feature option-sqlite-exact-column-type are not modelled.",
     design_ref="§6 C13",
@@ -237,8 +237,8 @@ PROPS["C13"] = dict(
 PROPS["C14"] = dict(
     groups=["token", "escape", "quote", "coltypes"],
     lean_props=["SeaQ.Props.C14", "SeaQ.Props.Ddl"],
-    lean_obligations=["SeaQ.Lemmas.Scan", "SeaQ.Lemmas.SafeBasics", "SeaQ.Lemmas.Ctx", "SeaQ.Lemmas.RenderCtx", "SeaQ.Lemmas.DdlCtx"],
-    technique="Lean 4 model of the schema-statement renderer (Model/Ddl: CREATE / ALTER / DROP / RENAME / TRUNCATE TABLE, CREATE / DROP INDEX, ADD / DROP FOREIGN KEY, Postgres CREATE / ALTER / DROP TYPE and CREATE / DROP EXTENSION; MySQL and Postgres dialects here) tied to the crate by differential runs of generated schema statements through build / to_string / build_any, with theorems for every statement of the model: the engine's lexer reads the rendered text item by item as written (ddl_read), CREATE TABLE is head + the ', '-separated list of all declared columns, keys, foreign keys and checks in order + tail (create_items, create_complete), every MySQL column specification is written in the order given (mysql_specs_all), unsigned types are the signed type + UNSIGNED, Postgres auto-increment columns are declared smallserial / serial / bigserial and the specification writes nothing; plus Lean 4 proofs over the MySQL / Postgres type-name tables regenerated from src/backend/{mysql,postgres}/table.rs on every run: every template of every supported ColumnType arm names a type the dialect defines in a form it defines (for all parameter values), parameters appear in the written name as their decimal digits and in declaration order, UNSIGNED follows exactly the unsigned variants, auto-increment is AUTO_INCREMENT / smallserial-serial-bigserial; whole statements are decided by a reference DDL grammar per dialect: the parse tree of every generated schema statement must equal the tree expected from the scenario (each column one type and each specification once, table-level elements, options, ALTER option separators, index / foreign-key / type / extension statements)",
+    lean_obligations=["SeaQ.Lemmas.Scan", "SeaQ.Lemmas.SafeBasics", "SeaQ.Lemmas.Ctx", "SeaQ.Lemmas.RenderCtx", "SeaQ.Lemmas.DdlCtx", "SeaQ.Lemmas.Balance", "SeaQ.Lemmas.RenderBalance", "SeaQ.Lemmas.DdlBalance"],
+    technique="Lean 4 model of the schema-statement renderer (Model/Ddl: CREATE / ALTER / DROP / RENAME / TRUNCATE TABLE, CREATE / DROP INDEX, ADD / DROP FOREIGN KEY, Postgres CREATE / ALTER / DROP TYPE and CREATE / DROP EXTENSION; MySQL and Postgres dialects here) tied to the crate by differential runs of generated schema statements through build / to_string / build_any, with theorems for every statement of the model: the engine's lexer reads the rendered text item by item as written (ddl_read), parentheses are balanced (ddl_balanced), CREATE TABLE is head + the ', '-separated list of all declared columns, keys, foreign keys and checks in order + tail (create_items, create_complete), every MySQL column specification is written in the order given (mysql_specs_all), unsigned types are the signed type + UNSIGNED, Postgres auto-increment columns are declared smallserial / serial / bigserial and the specification writes nothing; plus Lean 4 proofs over the MySQL / Postgres type-name tables regenerated from src/backend/{mysql,postgres}/table.rs on every run: every template of every supported ColumnType arm names a type the dialect defines in a form it defines (for all parameter values), parameters appear in the written name as their decimal digits and in declaration order, UNSIGNED follows exactly the unsigned variants, auto-increment is AUTO_INCREMENT / smallserial-serial-bigserial; whole statements are decided by a reference DDL grammar per dialect: the parse tree of every generated schema statement must equal the tree expected from the scenario (each column one type and each specification once, table-level elements, options, ALTER option separators, index / foreign-key / type / extension statements)",
     level_text="Machine-checked for every schema statement of the model: ddl_safe / ddl_read (lexical well-formedness under contentOK), create_items / create_complete, mysql_specs_all, mysql_unsigned, postgres_autoincrement_serial; type mapping obligations over the regenerated tables, lifted to all parameter values (params_in_text). Validated on generated statements: acceptance by the reference DDL grammar and tree equality with the declaration. The grammars and the per-dialect lists of defined types are the trusted specification (no MySQL / Postgres engine in the sandbox). That the text is a sentence of the dialect's grammar beyond the lexical level is decided by the reference grammar on generated statements, not by a theorem.",
     level_note="The schema-statement model (Model/Ddl.lean) is hand-written from the crate's builders and validated against the crate on every run (4 000 generated statements per quick run, panics included); Trusted: Lean kernel; seaq-translate (syn) for the tables; SeaQ.Props.C14.mysqlDefined / postgresDefined (transcribed from the manuals); harness/src/c14.rs (reference grammar and expected trees) with the reference lexers.",
     design_ref="§6 C14",
